@@ -665,9 +665,105 @@ func C16(r *core.Run) {
 		}
 	}
 
+	// ---- the TCP server is unreachable: the bridge must still release the client's connection
+	for attempt := 0; attempt < 2; attempt++ {
+		missed, leaked, detail, err := c16Unreachable(r, bins, fmt.Sprintf("-down%d", attempt), r.Pick(6, 24))
+		if err != nil {
+			r.Broken("unreachable-server topology: " + err.Error())
+			break
+		}
+		if attempt == 0 {
+			r.Cases("unreachable-server|client-waits", 1)
+			r.Cases("unreachable-server|client-writes", 1)
+		}
+		if missed == 0 && !leaked {
+			if attempt == 1 {
+				r.Inconclusive("unreachable-server phase missed its bound once but not when repeated on fresh processes")
+			}
+			break
+		}
+		if attempt == 1 {
+			if missed > 0 {
+				r.Violate("C16:eof-not-propagated:server-unreachable", fmt.Sprintf("the bridge backend cannot reach its TCP server, yet %d client connection(s) saw no end-of-stream within %s (repeated on fresh processes)", missed, c16Bound), nil, detail)
+			}
+			if leaked {
+				r.Violate("C16:sockets-leaked:server-unreachable", fmt.Sprintf("connections to an unreachable TCP server are not released after the clients left: %v", detail), nil, detail)
+			}
+		}
+	}
+
 	judgeProcs(r, true, e.topo.Front, e.topo.Back)
 	e.close()
 	_ = procs
 	r.JudgeRaces(core.ParseRaceLogs(filepath.Join(r.WorkDir, "race-")))
 	r.Finish(r.Pick(60, 450))
+}
+
+// c16Unreachable starts a bridge whose backend forwards to a closed port and
+// connects n clients (half of them write first): every client must observe
+// end-of-stream (EOF or reset) within the bound, and after the clients left
+// both processes must be back at their idle socket count within the bound.
+func c16Unreachable(r *core.Run, bins bridgeBins, suffix string, n int) (missed int, leaked bool, detail map[string]interface{}, err error) {
+	topo, err := bridgeStartTopo(r, bins, suffix, core.FreePort())
+	if err != nil {
+		return 0, false, nil, err
+	}
+	defer topo.Kill()
+	var wg sync.WaitGroup
+	var mu sync.Mutex
+	var lat []int64
+	for i := 0; i < n; i++ {
+		wg.Add(1)
+		go func(i int) {
+			defer wg.Done()
+			c, err := net.DialTimeout("tcp", topo.FrontAddr, 5*time.Second)
+			if err != nil {
+				mu.Lock()
+				missed++ // cannot even connect: counts as not released/served
+				mu.Unlock()
+				return
+			}
+			defer c.Close()
+			t0 := time.Now()
+			if i%2 == 1 {
+				c.Write([]byte("hello from a client whose server is down"))
+			}
+			c.SetReadDeadline(time.Now().Add(c16Bound))
+			buf := make([]byte, 256)
+			for {
+				_, err := c.Read(buf)
+				if err == nil {
+					continue
+				}
+				mu.Lock()
+				if bridgeIsTimeout(err) {
+					missed++
+				} else {
+					lat = append(lat, time.Since(t0).Milliseconds())
+				}
+				mu.Unlock()
+				return
+			}
+		}(i)
+		time.Sleep(5 * time.Millisecond)
+	}
+	wg.Wait()
+	// all clients are gone now; census must return to baseline within the bound
+	deadline := time.Now().Add(c16Bound)
+	var f, b int
+	for {
+		f, b = topo.Census()
+		if f <= topo.FrontBase && b <= topo.BackBase {
+			break
+		}
+		if time.Now().After(deadline) {
+			leaked = true
+			break
+		}
+		time.Sleep(50 * time.Millisecond)
+	}
+	detail = map[string]interface{}{"clients": n, "eos_latencies_ms": lat, "sockets_frontend": f, "sockets_backend": b, "idle_frontend": topo.FrontBase, "idle_backend": topo.BackBase}
+	r.Add("unreachable_server_clients_released", len(lat))
+	judgeProcs(r, true, topo.Front, topo.Back)
+	return missed, leaked, detail, nil
 }
